@@ -4,8 +4,9 @@ C17 — `HelicityModel.rename_symbols` is a consistent renaming of the whole mod
 All theorems are about the executable model `Ampverif.Model.C17Rename` (`rename`, modelled line by
 line on `/repo/src/ampform/helicity/__init__.py`; tied to the source on every run by the
 correspondence harness `tools/corr/C17_corr.py`). `v : Variant` carries the two switches of fix
-137fbcb; theorems that need the fix assume `v.sound` (or the one switch they need), and for each
-unsound switch there is a kernel-checked witness whose input is replayed on the real code.
+137fbcb and the switch of fix c9b6eb9; theorems that need a fix assume `v.sound` (or the one switch
+they need), and for each unsound switch there is a kernel-checked witness whose input is replayed
+on the real code.
 Only property theorems and non-vacuity examples live here (lemmas: `Ampverif/Lemmas/C17*.lean`).
 
 Notation: `σ = sigma v m ρ` is the ONE symbol map (`symbol_mapping`, totalised by the identity)
@@ -186,27 +187,41 @@ theorem witness_params_not_collected :
 /-! ### 3. assumptions are preserved -/
 
 /-- A symbol renamed to a name that no unrenamed collected symbol carries becomes the symbol of the
-new name with the SAME assumptions. -/
+new name with the SAME assumptions — provided every symbol sent to that name has those assumptions
+(always true when only one symbol is sent there). -/
 theorem assumptions_preserved (v : Variant) (m : Model) (ρ : List (Name × Name)) (s : Sym)
     (hs : s ∈ collect v m) (n' : Name) (h : renameOf ρ s.name = some n')
-    (hfresh : ∀ t, t ∈ collect v m → renameOf ρ t.name = none → t.name ≠ n') :
+    (hfresh : ∀ t, t ∈ collect v m → renameOf ρ t.name = none → t.name ≠ n')
+    (hsame : ∀ t, t ∈ collect v m → renameOf ρ t.name = some n' → t.asm = s.asm) :
     sigma v m ρ s = ⟨n', s.asm⟩ := by
-  rw [sigma_of_mem v m ρ s hs]; exact target_fresh h hfresh
+  rw [sigma_of_mem v m ρ s hs,
+    target_fresh h (fun t ht => hfresh t ((mem_ordered v m t).mp ht))]
+  obtain ⟨a₀, ha₀, hr, he, _, _⟩ :=
+    freshTarget_spec (v := v) (ρ := ρ) ((mem_ordered v m s).mpr hs) h
+  rw [he, hsame a₀ ((mem_ordered v m a₀).mp ha₀) hr]
 
-/-- In general the image is either that, or an existing unrenamed symbol of the requested name. -/
+/-- In general the image carries the requested name and the assumptions of SOME symbol that was sent
+to that name, or it is an existing unrenamed symbol of the requested name. -/
 theorem image_fresh_or_existing (v : Variant) (m : Model) (ρ : List (Name × Name)) (s : Sym)
     (hs : s ∈ collect v m) (n' : Name) (h : renameOf ρ s.name = some n') :
-    sigma v m ρ s = ⟨n', s.asm⟩ ∨
+    (∃ a₀, a₀ ∈ collect v m ∧ renameOf ρ a₀.name = some n' ∧ sigma v m ρ s = ⟨n', a₀.asm⟩) ∨
       (sigma v m ρ s ∈ collect v m ∧ renameOf ρ (sigma v m ρ s).name = none ∧ (sigma v m ρ s).name = n') := by
   rw [sigma_of_mem v m ρ s hs]
+  have hfr : ∃ a₀, a₀ ∈ collect v m ∧ renameOf ρ a₀.name = some n' ∧
+      freshTarget v ρ (ordered v m) s n' = ⟨n', a₀.asm⟩ := by
+    obtain ⟨a₀, ha₀, hr, he, _, _⟩ :=
+      freshTarget_spec (v := v) (ρ := ρ) ((mem_ordered v m s).mpr hs) h
+    exact ⟨a₀, (mem_ordered v m a₀).mp ha₀, hr, he⟩
   unfold target
   rw [h]
   cases hv : v.reusesExisting
-  · exact Or.inl (by simp)
+  · exact Or.inl (by simpa using hfr)
   · simp only [if_true]
-    cases he : existingNamed ρ (collect v m) n' with
-    | none => exact Or.inl rfl
-    | some t => exact Or.inr (existingNamed_some he)
+    cases he : existingNamed ρ (ordered v m) n' with
+    | none => exact Or.inl hfr
+    | some t =>
+      obtain ⟨h1, h2, h3⟩ := existingNamed_some he
+      exact Or.inr ⟨(mem_ordered v m t).mp h1, h2, h3⟩
 
 /-! ### 4. merging couples exactly the merged symbols -/
 
@@ -222,16 +237,42 @@ theorem merge_onto_existing_couples (v : Variant) (hv : v.reusesExisting = true)
     unfold target
     rw [hab]
     simp only [hv, if_true]
-    rw [existingNamed_unique hb hbb rfl huniq]
+    rw [existingNamed_unique ((mem_ordered v m b).mpr hb) hbb rfl
+      (fun t ht => huniq t ((mem_ordered v m t).mp ht))]
   · rw [sigma_of_mem v m ρ b hb, target_of_none hbb]
 
-/-- Two symbols with equal assumptions renamed to one fresh name become one symbol. -/
-theorem merge_onto_fresh_couples (v : Variant) (m : Model) (ρ : List (Name × Name)) (a b : Sym)
-    (ha : a ∈ collect v m) (hb : b ∈ collect v m) (n : Name)
-    (hna : renameOf ρ a.name = some n) (hnb : renameOf ρ b.name = some n) (hasm : a.asm = b.asm)
-    (hfresh : ∀ t, t ∈ collect v m → renameOf ρ t.name = none → t.name ≠ n) :
+/-- "Mapping two parameters to one name couples them", without any precondition on assumptions or on
+the name (fix c9b6eb9): two collected symbols sent to the same name become the same symbol. -/
+theorem merge_couples (v : Variant) (hv : v.oneSymbolPerNewName = true) (m : Model)
+    (ρ : List (Name × Name)) (a b : Sym) (ha : a ∈ collect v m) (hb : b ∈ collect v m) (n : Name)
+    (hna : renameOf ρ a.name = some n) (hnb : renameOf ρ b.name = some n) :
     sigma v m ρ a = sigma v m ρ b := by
-  rw [assumptions_preserved v m ρ a ha n hna hfresh, assumptions_preserved v m ρ b hb n hnb hfresh, hasm]
+  rw [sigma_of_mem v m ρ a ha, sigma_of_mem v m ρ b hb]
+  exact target_depends_on_new_name hv ((mem_ordered v m a).mpr ha) hna hnb
+
+/-- What happens to the assumptions in such a merge onto a fresh name: ALL sources take the
+assumptions of the FIRST source in the order of the sort key `(name, assumptions)` — the later
+sources lose theirs. -/
+theorem merge_onto_fresh_takes_first_assumptions (v : Variant) (hv : v.oneSymbolPerNewName = true)
+    (m : Model) (ρ : List (Name × Name)) (a : Sym) (ha : a ∈ collect v m) (n : Name)
+    (hna : renameOf ρ a.name = some n)
+    (hfresh : ∀ t, t ∈ collect v m → renameOf ρ t.name = none → t.name ≠ n) :
+    ∃ a₀, a₀ ∈ collect v m ∧ renameOf ρ a₀.name = some n ∧
+      (∀ t, t ∈ collect v m → renameOf ρ t.name = some n → symCmp a₀ t ≠ .gt) ∧
+      (∀ b, b ∈ collect v m → renameOf ρ b.name = some n → sigma v m ρ b = ⟨n, a₀.asm⟩) := by
+  obtain ⟨a₀, ha₀, hr, he, _, hfirst⟩ :=
+    freshTarget_spec (v := v) (ρ := ρ) ((mem_ordered v m a).mpr ha) hna
+  have hfs := hfirst hv
+  have hord : ordered v m = isort symLt (collect v m) := by simp [ordered, lookupOrder, hv]
+  refine ⟨a₀, (mem_ordered v m a₀).mp ha₀, hr, ?_, ?_⟩
+  · intro t ht hrt
+    unfold firstSource at hfs
+    rw [hord] at hfs
+    obtain ⟨_, _, hmin⟩ := find?_least (isort_symLt_pairwise (collect v m)) _ hfs
+    exact hmin t ((mem_isort symLt _ t).mpr ht) (by simp [hrt])
+  · intro b hb hrb
+    rw [merge_couples v hv m ρ b a hb ha n hrb hna, sigma_of_mem v m ρ a ha,
+      target_fresh hna (fun t ht => hfresh t ((mem_ordered v m t).mp ht)), he]
 
 /-- … and nothing else: symbols with different final names stay different symbols. -/
 theorem couples_nothing_else (v : Variant) (m : Model) (ρ : List (Name × Name)) (c d : Sym)
@@ -269,43 +310,53 @@ theorem witness_no_reuse :
       ≠ sigma Witness.unsoundNoReuse Witness.witnessModel [(Witness.nA, Witness.nD)] Witness.d := by
   decide
 
-/-- Limit of the coupling clause that remains in the fixed tree (reported in
-notes/findings_C17.md): two symbols with DIFFERENT assumptions sent to one fresh name stay two
-symbols (each keeps its assumptions), so they are not coupled. -/
-theorem fresh_merge_with_different_assumptions_does_not_couple (v : Variant) (m : Model)
-    (ρ : List (Name × Name)) (a b : Sym) (ha : a ∈ collect v m) (hb : b ∈ collect v m) (n : Name)
-    (hna : renameOf ρ a.name = some n) (hnb : renameOf ρ b.name = some n) (hasm : a.asm ≠ b.asm)
+/-- Witness for the unsound switch `oneSymbolPerNewName = false` (the tree before c9b6eb9): the
+coefficient `a` (no assumptions) and the width `g` (non-negative) sent to the fresh name `k` stay two
+different symbols called `k` — nothing is coupled. Replayed on the real code. -/
+theorem witness_many_symbols_per_new_name :
+    sigma Witness.unsoundManySymbols Witness.mergeModel [(Witness.nA, Witness.nK), ([103], Witness.nK)] Witness.a
+      ≠ sigma Witness.unsoundManySymbols Witness.mergeModel [(Witness.nA, Witness.nK), ([103], Witness.nK)] Witness.g := by
+  decide
+
+/-- The same for every model and map of that unsound variant (this was finding F1). -/
+theorem unsound_fresh_merge_does_not_couple (v : Variant) (hv : v.oneSymbolPerNewName = false)
+    (m : Model) (ρ : List (Name × Name)) (a b : Sym) (ha : a ∈ collect v m) (hb : b ∈ collect v m)
+    (n : Name) (hna : renameOf ρ a.name = some n) (hnb : renameOf ρ b.name = some n)
+    (hasm : a.asm ≠ b.asm)
     (hfresh : ∀ t, t ∈ collect v m → renameOf ρ t.name = none → t.name ≠ n) :
     sigma v m ρ a ≠ sigma v m ρ b := by
-  rw [assumptions_preserved v m ρ a ha n hna hfresh, assumptions_preserved v m ρ b hb n hnb hfresh]
+  rw [sigma_of_mem v m ρ a ha, sigma_of_mem v m ρ b hb,
+    target_fresh hna (fun t ht => hfresh t ((mem_ordered v m t).mp ht)),
+    target_fresh hnb (fun t ht => hfresh t ((mem_ordered v m t).mp ht))]
+  simp only [freshTarget, hv, Bool.false_eq_true, if_false]
   intro e
   exact hasm (Sym.mk.inj e).2
 
+/-- Hash-seed independence (this was finding F2): since c9b6eb9 the image of a symbol depends only
+on the SET of collected symbols, not on the order in which a Python `set` happens to yield them —
+any two enumerations with the same members give the same image. -/
+theorem target_independent_of_set_order (v : Variant) (hv : v.oneSymbolPerNewName = true)
+    (ρ : List (Name × Name)) (l₁ l₂ : List Sym) (hm : ∀ s, s ∈ l₁ ↔ s ∈ l₂) (s : Sym) :
+    target v ρ (lookupOrder v l₁) s = target v ρ (lookupOrder v l₂) s := by
+  unfold target
+  cases h : renameOf ρ s.name with
+  | none => rfl
+  | some n' =>
+    simp only
+    unfold freshTarget existingNamed firstSource lookupOrder
+    simp only [hv, if_true]
+    rw [find?_isort_set_invariant l₁ l₂ hm (fun s => (renameOf ρ s.name).isNone && s.name == n'),
+      find?_isort_set_invariant l₁ l₂ hm (fun s => renameOf ρ s.name == some n')]
+
 /-! ### 5. injective maps: substitution = precomposition of the environment -/
 
-/-- A rename map that is injective on the names of the collected symbols gives an injective `σ`. -/
+/-- A rename map that is injective on the names of the collected symbols of a model with one symbol
+per name (every model the builders make) gives an injective `σ`. -/
 theorem sigma_injOn (v : Variant) (m : Model) (ρ : List (Name × Name))
+    (hone : ∀ s, s ∈ collect v m → ∀ t, t ∈ collect v m → s.name = t.name → s = t)
     (hinj : InjOnNames ρ (collect v m)) : InjOn (sigma v m ρ) (collect v m) := by
   intro s hs t ht h
-  have hn : s.name = t.name := hinj s hs t ht (couples_nothing_else v m ρ s t hs ht h)
-  rw [sigma_of_mem v m ρ s hs, sigma_of_mem v m ρ t ht] at h
-  cases hr : renameOf ρ s.name with
-  | none =>
-    have hr' : renameOf ρ t.name = none := hn ▸ hr
-    rwa [target_of_none hr, target_of_none hr'] at h
-  | some n' =>
-    have hr' : renameOf ρ t.name = some n' := hn ▸ hr
-    -- the target name cannot be the name of an unrenamed collected symbol (injectivity on names)
-    have hfresh : ∀ u, u ∈ collect v m → renameOf ρ u.name = none → u.name ≠ n' := by
-      intro u hu hru hun
-      have : nameMap ρ u.name = nameMap ρ s.name := by
-        simp only [nameMap, hru, hr, Option.getD_none, Option.getD_some]; exact hun
-      have hus := hinj u hu s hs this
-      rw [hus, hr] at hru
-      cases hru
-    rw [target_fresh hr hfresh, target_fresh hr' hfresh] at h
-    have hasm : s.asm = t.asm := (Sym.mk.inj h).2
-    cases s; cases t; simp_all
+  exact hone s hs t ht (hinj s hs t ht (couples_nothing_else v m ρ s t hs ht h))
 
 /-- The values of the renamed model's expression on any environment are the values of the original
 on the precomposed environment (for EVERY map, merging ones included). -/
@@ -376,13 +427,14 @@ theorem value_rename {α : Type} (I : Interp α) (v : Variant) (hv : v.collectsP
   exact hB s ((hmem s).mpr (Or.inl hs))
 
 /-- The statement of the property for injective rename maps, in one piece: a map that is injective
-on the names the (sound) model mentions never changes the intensity. -/
+on the names a (sound) model with one symbol per name mentions never changes the intensity. -/
 theorem value_rename_of_injective_names {α : Type} (I : Interp α) (v : Variant) (hv : v.sound)
     (m : Model) (ρ : List (Name × Name)) (hρ : ρ ≠ []) (hwf : m.WF)
+    (hone : ∀ s, s ∈ collect v m → ∀ t, t ∈ collect v m → s.name = t.name → s = t)
     (hinj : InjOnNames ρ (collect v m)) (data data' : Sym → α)
     (hdata : ∀ s, s ∈ collect v m → data' (sigma v m ρ s) = data s) :
     (rename v m ρ).value I data' = m.value I data :=
-  value_rename I v hv.1 m ρ hρ hwf (sigma_injOn v m ρ hinj) data data' hdata
+  value_rename I v hv.1 m ρ hρ hwf (sigma_injOn v m ρ hone hinj) data data' hdata
 
 /-! ### 6. C01 closure is preserved -/
 
@@ -484,8 +536,17 @@ open Witness in
 /-- … the hypotheses of `value_rename` are satisfiable by a non-trivial map (three symbols renamed,
 one of them a kinematic variable, one a four-momentum) … -/
 example : witnessModel.WF ∧ witnessModel.closed ∧
-    InjOnNames [(nA, nK), (nX, nTheta), (nP0, [113])] (collect Variant.fixed witnessModel) := by
-  refine ⟨⟨by decide, by decide⟩, ⟨by decide, by decide⟩, by unfold InjOnNames; decide⟩
+    InjOnNames [(nA, nK), (nX, nTheta), (nP0, [113])] (collect Variant.fixed witnessModel) ∧
+    (∀ s, s ∈ collect Variant.fixed witnessModel → ∀ t, t ∈ collect Variant.fixed witnessModel →
+      s.name = t.name → s = t) := by
+  refine ⟨⟨by decide, by decide⟩, ⟨by decide, by decide⟩, by unfold InjOnNames; decide, by decide⟩
+
+open Witness in
+/-- … the fixed variant couples `a` (no assumptions) and `g` (non-negative) under the fresh name `k`:
+one symbol, with the assumptions of the first source `a` … -/
+example : sigma Variant.fixed mergeModel [(nA, nK), ([103], nK)] a = ⟨nK, 0⟩ ∧
+    sigma Variant.fixed mergeModel [(nA, nK), ([103], nK)] g = ⟨nK, 0⟩ ∧
+    (rename Variant.fixed mergeModel [(nA, nK), ([103], nK)]).paramKeys = [⟨nK, 0⟩] := by decide
 
 open Witness in
 /-- … and merging two kinematic variables (precondition (iii) violated) really drops a definition. -/
